@@ -5,6 +5,7 @@ import SfxModel.DriverConv
 import SfxModel.DriverMath
 import SfxModel.DriverText
 import SfxModel.ExtOps
+import SfxModel.ExtBits
 import SfxModel.ExtFrom
 /-
   Main.lean — line-protocol driver.  stdin: the Rust harness' output, one `request => answer` per line.
@@ -51,7 +52,9 @@ def modelOf (prof : Profile) (L : Layout) (op : String) (args : List String) : O
   else if op.startsWith "t_" then DriverMath.model prof L op args
   else if isTextOp op then DriverText.model prof L op args
   else match args.mapM String.toInt? with
-  | some ints => (DriverArith.model L (DriverArith.baseOp op) ints).map (Outcome.render prof)
+  | some ints =>
+    if ExtBits.handles op then (ExtBits.model L op ints).map (Outcome.render prof)   -- extension Bits
+    else (DriverArith.model L (DriverArith.baseOp op) ints).map (Outcome.render prof)
   | none => none
 
 /-- documented answer, rendered (`none`: unconstrained) -/
@@ -62,14 +65,17 @@ def specOf (prof : Profile) (L : Layout) (op : String) (args : List String) : Op
   else if codecOps.contains op then DriverCodec.spec L op args
   else if isConvOp op then DriverConv.spec prof L op args
   else match args.mapM String.toInt? with
-  | some ints => (DriverArith.spec L (DriverArith.baseOp op) ints).map (Outcome.render prof)
+  | some ints =>
+    if ExtBits.handles op then (ExtBits.spec L op ints).map (Outcome.render prof)   -- extension Bits
+    else (DriverArith.spec L (DriverArith.baseOp op) ints).map (Outcome.render prof)
   | none => none
 
 def isSpecial (ans : String) : Bool := ans == "P" || ans.startsWith "E;" || ans.startsWith "E:" || ans == "N" || ans == "U" || ans.endsWith ",1" || ans.endsWith ";P"
 
 def argsInRange (L : Layout) (op : String) (args : List String) : Bool :=
   -- operands of typed arithmetic requests are bit patterns of the layout (the driver rejects others)
-  if op.startsWith "h_div_rem_from" || op.startsWith "t_" || isTextOp op || op == "wprog" || op == "fprog" || op == "decode" || op.startsWith "from_" || isConvOp op || ExtFrom.isOp op then true
+  if ExtBits.handles op then (match args.mapM String.toInt? with | some ints => ExtBits.argsOk L op ints | none => false)   -- extension Bits: shift amounts are `u32` / `T` values
+  else if op.startsWith "h_div_rem_from" || op.startsWith "t_" || isTextOp op || op == "wprog" || op == "fprog" || op == "decode" || op.startsWith "from_" || isConvOp op || ExtFrom.isOp op then true
   else args.all (fun a => match a.toInt? with | some i => decide (inRange L i) | none => true)
 
 partial def loop (prof : Profile) (h : IO.FS.Stream) (out : IO.FS.Stream) (st : Stats) : IO Stats := do
